@@ -5,6 +5,7 @@ from sim import gen, harness, install, store, world
 from sim.core import substream
 
 PROP = 'C09'
+TECHNIQUE = 'deterministic simulation: seeded schedule search (random/sticky/PCT, line pre-emption, query yields, latencies, stalls, knobs) against a sequential reference run; failure variants'
 LEVEL = 'exploration'
 RULE = ('one case = init + snapshot + restore of a seeded small tree (many chunks, repeated digests) at '
         'concurrency 1..6 on the plain or coroutine SimStore under one seeded schedule (picking policy, '
